@@ -2,7 +2,7 @@
 //! (a name handed to `get_function` together with the signature the
 //! generator knows that name has, or `None` if nothing retrievable has it).
 
-use crate::ty::{Leaf, SIX, T, l, unit, ver};
+use c04p::ty::{Leaf, SIX, T, l, unit, ver};
 use vcore::Tier;
 
 #[derive(Clone, Debug)]
@@ -79,7 +79,7 @@ pub fn package(tier: Tier) -> Pkg {
     };
 
     // ---- p_S / r_S for every S of the grammar
-    for s in crate::ty::script_grammar(tier) {
+    for s in c04p::ty::script_grammar(tier) {
         let m = s.mangle();
         let src = format!("fn p_{m}(x: {}) {{}}", s.roto());
         emit(&mut root, func(&format!("p_{m}"), "p", vec![s.clone()], unit(), src));
@@ -92,7 +92,7 @@ pub fn package(tier: Tier) -> Pkg {
 
     // ---- the `T?` spelling of Option
     for x in [Leaf::U8, Leaf::Str, Leaf::Tr] {
-        let s = crate::ty::opt(l(x));
+        let s = c04p::ty::opt(l(x));
         let name = format!("pq_{}", s.mangle());
         let src = format!("fn {name}(x: {}?) {{}}", x.roto());
         emit(&mut root, func(&name, "p", vec![s.clone()], unit(), src));
@@ -189,6 +189,16 @@ pub fn package(tier: Tier) -> Pkg {
         t.push(tg);
     }
 
+    // the same parameter lists with a return value
+    for sg in arity_sigs() {
+        let name = arity_name(&sg).replacen('a', "ar", 1);
+        let ps: Vec<String> = sg.iter().enumerate().map(|(i, t)| format!("x{i}: {}", t.roto())).collect();
+        let src = format!("fn {name}({}) -> u8 {{ 7 }}", ps.join(", "));
+        let tg = func(&name, "arity", sg.clone(), l(Leaf::U8), src.clone());
+        root.push_str(&src);
+        root.push('\n');
+        t.push(tg);
+    }
     // more parameters than any Rust function type that can be requested has
     for n in [8usize, 9] {
         let name = format!("a{n}_n");
@@ -281,7 +291,7 @@ pub fn package(tier: Tier) -> Pkg {
         sub_item(&mut sub, &format!("r_{m}"), "shadow", vec![], a.clone(), &format!("fn r_{m}() -> {ty} {{ {val} }}"));
     }
     // `T?` and a filtermap's verdict still mean the built-in types there
-    sub_item(&mut sub, "pq_u8", "sub", vec![crate::ty::opt(l(Leaf::U8))], unit(), "fn pq_u8(x: u8?) {}");
+    sub_item(&mut sub, "pq_u8", "sub", vec![c04p::ty::opt(l(Leaf::U8))], unit(), "fn pq_u8(x: u8?) {}");
     sub_item(&mut sub, "fm_sub", "filtermap", vec![], ver(l(Leaf::U8), unit()), "filtermap fm_sub() { accept 7u8 }");
 
     // ---- names that designate nothing retrievable
